@@ -425,6 +425,8 @@ class Exec:
             raise Unsupported(f"operator {op}")
         if kind == "float":
             r = self.ctx.rf(r)
+        if kind == "int" and "wide_int" in self.patches and op in ("+", "-", "*"):
+            r = (r + (1 << 31)) % (1 << 32) - (1 << 31)        # 32-bit wrap-around
         return Num(kind, r)
 
     # ------------------------------------------------------------ calls
